@@ -28,13 +28,13 @@ MustAccept == Ev.mustaccept /\ StrictLiteral(Ev.chars)
 TrLit ==
   /\ Ev.e = "lit" /\ l' = l + 1
   /\ Note( IF Ev.accepted
-           THEN If(~WellFormedLit /\ Ev.strict, V("C16", "ill-formed literal accepted")) \cup
+           THEN If(~WellFormedLit /\ Ev.strict, V("C16", [m |-> "ill-formed literal accepted"])) \cup
                 If(WellFormedLit /\ Ev.hasval /\
                    ~REq(ValueOf(Ev.chars), [n |-> B(Ev.val.n), d |-> B(Ev.val.d)]),
-                   V("C16", "value differs from the literal")) \cup
-                If(WellFormedLit /\ Ev.unsat, V("C16", "v = literal is unsatisfiable: the literal was not read as one value")) \cup
-                If(Ev.hasval /\ BSign(B(Ev.val.d)) <= 0, V("C16", "printed denominator not positive"))
-           ELSE If(MustAccept, V("C16", "well-formed literal rejected")) )
+                   V("C16", [m |-> "value differs from the literal"])) \cup
+                If(WellFormedLit /\ Ev.unsat, V("C16", [m |-> "v = literal is unsatisfiable: the literal was not read as one value"])) \cup
+                If(Ev.hasval /\ BSign(B(Ev.val.d)) <= 0, V("C16", [m |-> "printed denominator not positive"]))
+           ELSE If(MustAccept, V("C16", [m |-> "well-formed literal rejected"])) )
 TrOther == /\ Ev.e # "lit" /\ l' = l + 1 /\ Note({})
 Next == l <= Len(Tr) /\ (TrLit \/ TrOther)
 Spec == Init /\ [][Next]_<<l, viol>>
